@@ -74,7 +74,7 @@ fn frozen_format(r: &RunCtx, src: &str, opts: &Opts) -> Option<Value> {
 fn gen_reorder_groups(c: &mut Choices<'_>) -> Value {
     const STEMS: &[&str] = &["serde", "v", "x_", "Foo", "foo", "m2024", "a", "Z", "u", "U", "lib_", "core"];
     const TAILS: &[&str] = &["", "1", "2", "9", "10", "010", "1_0", "_v9", "_v10", "_V10", "8", "16", "128", "_", "__a", "A", "b"];
-    let mut name = |c: &mut Choices<'_>| format!("{}{}", *c.pick(STEMS), *c.pick(TAILS));
+    let name = |c: &mut Choices<'_>| format!("{}{}", *c.pick(STEMS), *c.pick(TAILS));
     let mut src = String::new();
     let groups = 1 + c.below(3);
     for g in 0..groups {
